@@ -101,4 +101,7 @@ FIXED_BY_SUBJECT = {
    ('C12', 'decoding a type containing a field-less SEQUENCE/SET failed only while debug logging was on')],
  "fix: encoding a Python value with asn1Spec modified the schema object": [
    ('C12', 'encode(mapping, asn1Spec=CHOICE schema) selected the alternative on the schema object itself')],
+ "fix: absurd length field read from a file leaked MemoryError": [
+   ('C11', 'a huge length field raised MemoryError from file/gzip substrates but underrun from bytes'),
+   ('C08', 'MemoryError leaked for huge lengths on file substrates')],
 }
